@@ -512,7 +512,12 @@ class CallMixin:
                         vv = self.coerce(v[2], ty.fields[n])
                         vals[n] = SV(z3.If(v[1], vv.t, dv.t), ty.fields[n])
                         continue
-                    vals[n] = self.lift_like(v, ty.fields[n]) if isinstance(v, (tuple, list)) else v
+                    if isinstance(v, SV) and v.ty == ty.fields[n]:
+                        vals[n] = v
+                    elif isinstance(v, (tuple, list)) and not isinstance(ty.fields[n], (TSet, TList)):
+                        vals[n] = self.lift_like(v, ty.fields[n])
+                    else:
+                        vals[n] = self.coerce(v, ty.fields[n])
             for n in kw:
                 if n not in names and n not in getattr(ty, "skipped", ()):
                     raise Unsupported(f"{ty.name}() unexpected field {n}")
